@@ -14,6 +14,11 @@ CLAIMS = {
   text="Machine-checked proof over the line state machine model with color_only = true: for every input (arbitrary lines) each step adds exactly one row (rendered, buffered or pending hunk header) and the final output has exactly as many rows as the input has lines, provided a hunk-header line is not directly followed by a line that ends the hunk before it began (C02_line_for_line, C02_one_row_per_line; the side condition is decidable and evaluated on the generated inputs). On the real binary: output line count = input line count for every generated diff/log (plain or coloured like color.ui=always) x 26 option sets containing --color-only (side-by-side, line numbers, decorations and decoration keywords inside style strings, omit styles, navigate, emulation presets, hyperlinks), and per-line visible text equality whenever no implied preset is explicitly overridden; the model's rendering is compared with the binary's rows.",
   note="Trusted: Coq kernel; harness; model scope as for C01. The per-line text clause is decided on the implementation by the oracle. No axioms.",
   design="§6 C02"),
+ "C04": dict(
+  technique="Coq proof (outside a diff a marker-free line is claimed by no handler; a block of such lines extends the history by exactly those lines, in order) + raw-byte pass-through oracle",
+  text="Machine-checked proofs over the line state machine model, for every configuration: outside a diff (before the first construct or in commit metadata) a line that begins with none of the construct-opening markers is emitted unchanged and leaves the machine where it is (C04_passthrough_line); a block of such lines extends the rendered history by exactly those lines, in order (C04_passthrough_block). On the real binary raw bytes are compared (no terminal decoding): pure text streams with embedded SGR sequences, CR variants, tabs and Unicode come out byte-identical up to the three permitted normalisations; text before diffs and commit messages between commits appear unchanged, whole-line and in order, under 18 option sets.",
+  note="Trusted: Coq kernel; harness; the model does not distinguish raw from stripped lines (the byte-level claim, incl. colours, is decided on the implementation); blame-like, JSON-like and grep-like lines are construct openers and excluded from the generated text. No axioms.",
+  design="§6 C04"),
  "C10": dict(
   technique="Coq proof (section reset, output never read back: prepend commutes with every step, end-of-input mirrors the section boundary) + black-box concatenation law on all ordered pairs of section kinds + repeated-run determinism",
   text="Machine-checked proofs over the line state machine model: a `diff ` line resets every per-file field to a function of that line alone, from any state (C10_section_reset); prepending anything to the written output commutes with every step, so earlier sections cannot influence later ones through the output (C10_never_reads_output); end of input flushes exactly what the next section boundary flushes (C10_eof_mirrors_boundary). On the real binary: stdout(A++B[++C]) = stdout(A)++stdout(B)[++stdout(C)] bytewise for every ordered pair of 13 section kinds x kind of last line x same/different paths x modes (unified, side-by-side, line numbers, decorations, navigate) and random longer sequences; byte-identical output over repeated runs under gitconfigs that exercise hash-map iteration, incl. --show-config.",
